@@ -77,7 +77,14 @@ func processModifiersCore[T any](
 
 	// Optional/Nilable and pointer types naturally allow nil values.
 	if internals.Optional || internals.Nilable || isPtr {
-		if nc := filterNilChecks(internals.Checks); len(nc) > 0 {
+		// An accepted nil is not validated: refinements and custom checks are about values. Only
+		// the value-rewriting checks still see it (an Overwrite may turn the nil into a value) —
+		// and for the Nil type nil IS the value, so there every nil-capable check runs.
+		nc := overwriteChecks(internals.Checks)
+		if expectedType == core.ZodTypeNil {
+			nc = filterNilChecks(internals.Checks)
+		}
+		if len(nc) > 0 {
 			r, err := ApplyChecks[any](nil, nc, ctx)
 			return r, true, err
 		}
